@@ -96,6 +96,10 @@ def rand_gtf_forest(r, explicit=False, ngenes=None):
                 if ex:
                     recs.append(dict(ftype="transcript", gene=gid, transcript=tid, start=min(x["start"] for x in ex),
                                      end=max(x["end"] for x in ex), seqid=seqid, strand=strand))
+        if explicit and r.random() < 0.3:
+            # a transcript known only from its own line (no exon, no other feature)
+            recs.append(dict(ftype="transcript", gene=gid, transcript="%sLONE" % gid, start=r.randrange(1, 500),
+                             end=r.randrange(500, 900), seqid=seqid, strand=strand))
         if explicit and r.random() < 0.6:
             ex = [x for x in recs if x["gene"] == gid and x["ftype"] == "exon"]
             if ex:
